@@ -31,7 +31,7 @@ def reader_labels(ctx):
             lang = 'ja' if i % 3 == 2 else 'en'
             mod = en if lang == 'en' else ja
             if i % 5 == 4:
-                t = T.arbitrary_tree(rng, lang, rng.randint(2, 5), gen_cat.inventory(lang),
+                t = T.arbitrary_tree(rng, lang, rng.randint(2, 5), gen_cat.tree_cats(lang),
                                      T.EN_LABELS if lang == 'en' else T.JA_LABELS, dict(awkward=0.1))
             else:
                 t = T.licensed_tree(rng, lang, rng.randint(0, 4), dict(awkward=0.1))
@@ -75,6 +75,60 @@ def reader_labels(ctx):
             os.remove(path)
         os.rmdir(tmpdir)
     ctx.extra['reader_nodes'] = seen
+    cross_language(ctx)
+
+
+def cross_language(ctx):
+    """the same featureless derivations read under the English grammar, then the Japanese one, then
+    English again, in this one process: labels and (for formats without a head field) head directions
+    must be those of the grammar that is active at the time"""
+    import os
+    import tempfile
+    from depccg.cat import Category
+    from depccg.tree import Tree
+    from depccg.types import Token
+    from depccg.printer.ptb import ptb_of
+    from depccg.tools.reader import read_ptb
+    from depccg.grammar import en, ja
+    from depccg import lang as dlang
+    rng = ctx.rng
+    texts = ['S', 'NP', 'N', 'S\\NP', 'S/S', 'S\\S', 'NP/N', '(S\\NP)/NP', 'NP\\NP', '(S\\NP)\\(S\\NP)', 'S/NP', 'PP', 'PP/NP']
+    pool = [Category.parse(t) for t in texts]
+    tmpdir = tempfile.mkdtemp(prefix='verif_c12x_')
+    path = os.path.join(tmpdir, 'x.ptb')
+    try:
+        for _ in range(ctx.budget(150, 1500)):
+            # a two-level tree whose nodes are derivable under at least one of the grammars
+            x, y = rng.choice(pool), rng.choice(pool)
+            res = en.apply_binary_rules(x, y) + ja.apply_binary_rules(x, y)
+            if not res:
+                continue
+            parent = rng.choice(res).cat
+            t = Tree.make_binary(parent, Tree.make_terminal(Token.of_word('a'), x), Tree.make_terminal(Token.of_word('b'), y), 'fa', '>')
+            with open(path, 'w') as f:
+                f.write(ptb_of(t) + '\n')
+            for lang in rng.choice([['en', 'ja', 'en'], ['ja', 'en', 'ja']]):
+                mod = en if lang == 'en' else ja
+                dlang.set_global_language_to(lang)
+                try:
+                    rt = list(read_ptb(path))[0].tree
+                except Exception as e:
+                    ctx.fail(f'read_ptb raised {type(e).__name__} under language {lang}', {'line': ptb_of(t)}, fingerprint=['xlang-raise', lang])
+                    continue
+                finally:
+                    dlang.set_global_language_to('en')
+                ctx.evaluations += 1
+                rs = [r for r in mod.apply_binary_rules(x, y) if r.cat == parent]
+                want = {(r.op_string, r.op_symbol, bool(r.head_is_left)) for r in rs} or {('unk', '<unk>', True)}
+                got = (rt.op_string, rt.op_symbol, bool(rt.head_is_left))
+                ctx.nontrivial_add(('xlang', str(x), str(y), str(parent), lang))
+                if got not in want:
+                    ctx.fail(f'node {parent} <- ({x}, {y}) read under the {lang} grammar carries {got}; that grammar assigns {sorted(want)}',
+                             {'line': ptb_of(t), 'lang': lang}, fingerprint=['xlang-label', lang])
+    finally:
+        if os.path.exists(path):
+            os.remove(path)
+        os.rmdir(tmpdir)
 
 
 def extra(ctx):
